@@ -21,5 +21,6 @@ C_pxhist == <<112, 32, 120, 59>> \o S_history \* p x;history
 C_exit2 == S_exit \o <<59>> \o S_exit         \* exit;exit
 CmdSet == {C_px, C_py, C_q, S_history, C_b0, C_b1, C_bm1, C_bm2, C_bb, C_b9, C_bm9, C_bhuge, C_bmhuge, C_pxpy, C_b0py,
            C_pxsemi, C_pxhist, S_exit, C_exit2}
-SmallCmdSet == {C_px, C_py, S_history, C_b0, C_bm1, C_bb, C_b9, C_bhuge, C_b0py, S_exit, C_exit2}
+CovCmdSet == {C_px, C_bb}
+
 =============================================================================
